@@ -1,7 +1,7 @@
 (* Soundness of the exact clipping model: the planes of a built cell are the walls and bisectors
    of the given sites, hence the cell contains the nearest-generator region; vertices lie on their
    three planes (Cramer). *)
-From Coq Require Import ZArith List Lia Bool.
+From Coq Require Import ZArith List Lia Bool Psatz.
 From MV Require Import Model.Cycle Model.CellExact.
 Import ListNotations.
 Open Scope Z_scope.
@@ -149,4 +149,23 @@ Proof.
     + unfold in_planes, walls. repeat constructor; vm_compute; discriminate.
     + intros s [<-|[]]. vm_compute. discriminate.
   - reflexivity.
+Qed.
+
+Lemma normal_direction : forall g s : site, forall gpos : V3,
+  site_pos s <> gpos ->
+  0 < dot (vscale (-1) (pn (bisector gpos s))) (vsub (site_pos s) gpos).
+Proof.
+  intros g s gpos Hne. destruct s as [[id sh] [[s0 s1] s2]]. destruct gpos as [[g0 g1] g2].
+  cbn [site_pos] in Hne. cbv [bisector pn vscale vsub dot site_pos].
+  assert (H : s0 <> g0 \/ s1 <> g1 \/ s2 <> g2).
+  { destruct (Z.eq_dec s0 g0), (Z.eq_dec s1 g1), (Z.eq_dec s2 g2); subst; auto. }
+  set (d0 := s0 - g0) in *. set (d1 := s1 - g1) in *. set (d2 := s2 - g2) in *.
+  replace (-1 * (2 * (g0 - s0)) * d0 + -1 * (2 * (g1 - s1)) * d1 + -1 * (2 * (g2 - s2)) * d2)
+    with (2 * (d0 * d0 + d1 * d1 + d2 * d2)) by (unfold d0, d1, d2; ring).
+  pose proof (Z.square_nonneg d0). pose proof (Z.square_nonneg d1). pose proof (Z.square_nonneg d2).
+  assert (N : forall d, d <> 0 -> 0 < d * d) by (intros; nia).
+  destruct H as [H|[H|H]].
+  - assert (Hd : d0 <> 0) by (unfold d0; lia). pose proof (N d0 Hd). lia.
+  - assert (Hd : d1 <> 0) by (unfold d1; lia). pose proof (N d1 Hd). lia.
+  - assert (Hd : d2 <> 0) by (unfold d2; lia). pose proof (N d2 Hd). lia.
 Qed.
